@@ -5,15 +5,28 @@ import SdnsVerif.Gen.C09
 # C09 — root trust anchors change only as RFC 5011 permits, across crashes and faults
 
 Property theorems about the model of `Resolver.AutoTA`
-(`Model/AutoTA.lean`; helper lemmas in `Lemmas/AutoTA.lean`).  Histories are
-lists of events (`Ev`): clock ticks, process restarts, corruption of a file,
-and `AutoTA` runs with an arbitrary fetched RRset, arbitrary read / write
-faults and an optional crash after any prefix of the run's file replacements.
+(`Model/AutoTA.lean`).  Histories are lists of events (`Ev`): clock ticks,
+process restarts, corruption of a file, and `AutoTA` runs with an arbitrary
+fetched RRset and signer set, arbitrary read / write faults and an optional
+crash after any prefix of the run's file replacements (`runHist`).  Key tags are
+data of the keys, so every theorem holds for an arbitrary key-tag function.
+
+Vocabulary (defined, with their lemmas, in `Lemmas/AutoTA.lean`):
+* `Barred d m` — disk `d` holds a record of the revocation of key material `m`
+  (tombstone, or `StateRevoked`/`StateRemoved` marker; a corrupt tombstone file
+  bars everything);
+* `HistOK` — the read assumptions of the `_partial` permanence theorems (no
+  "unreadable" tombstone file unless the tree fails closed on it; the state
+  file is not lost while it holds the only record);
+* `RevocationOf f c` — the fetched set `f` carries the validly self-signed
+  REVOKE form of anchor `c`;
+* `Ghost`, `ghostStep`, `runHistG`, `HistNC` — specification-side RFC 5011
+  bookkeeping of presence streaks (`since`) and completed hold-downs (`earned`),
+  and the no-tag-collision assumption of the `_partial` hold-down theorem;
+* `HoldInv` — the invariant that ties the implementation state to that bookkeeping.
 -/
 namespace SdnsVerif.Props.C09
 open SdnsVerif.Model.AutoTA SdnsVerif.Lemmas.AutoTA
-
-/-! ## durable records of a revocation -/
 
 /-! ## one run -/
 
@@ -282,6 +295,28 @@ theorem revocation_recorded_or_closed (P : Params) (cfg : List Key) (d : Disk) (
         first
           | exact Or.inr (Or.inl ⟨_, rfl, htomb⟩)
           | exact Or.inr (Or.inr ⟨_, rfl, tb, htb, hm1, hm2⟩)
+
+/-- **revocation_needs_material_and_selfsig.** Whatever authenticated the set
+(fully, or revocation-only), a revocation is accepted only for an anchor that
+was on record as Valid or Missing, on the evidence of a fetched key that is
+that anchor with exactly the REVOKE bit toggled (same key material — a key-tag
+match alone never suffices) and that validly self-signed the fetched RRset. -/
+theorem revocation_needs_material_and_selfsig (P : Params) (cfg : List Key) (d : Disk) (live : List Key)
+    (f : Fetch) (fl : Faults) (now m : Nat)
+    (hm : m ∈ (autoTA P cfg d live (some f) fl now).revoked) :
+    ∃ old ∈ (autoTA P cfg d live none fl now).curFinal,
+      old.key.mat = m ∧ isTrusted old.st = true ∧ RevocationOf f old.key := by
+  rcases autoTA_inv P cfg d live (some f) fl now with ⟨_, hr, _, _⟩ | ⟨tomb0, f', a, hrt, hf, _, _, heq⟩
+  · rw [hr] at hm; cases hm
+  · cases hf
+    rw [heq] at hm
+    rw [autoTA_none P cfg d live fl now tomb0 hrt]
+    simp only
+    have hm' : m ∈ (process P f (a == .revOnly) now
+        (prepare cfg (readState d live fl now) tomb0 now).1
+        (prepare cfg (readState d live fl now) tomb0 now).2).revoked := hm
+    obtain ⟨k, h1, h2, h3, h4, old, h5, h6, h7⟩ := process_revoked P f _ now _ _ m hm'
+    exact ⟨old, h5, by rw [sameKey_mat h7]; exact h4, h6, k, h1, h2, h7, h3⟩
 
 /-! ## corrupt / unreadable revocation store -/
 
@@ -873,6 +908,20 @@ theorem holddown_fails_on_tag_collision : ¬ NewKeyNeedsHolddownFull := by
   revert this
   decide
 
+/-- **An accepted but unrecordable revocation is not remembered by the running
+process.** `kA`'s revocation is accepted while both writes fail (the live set is
+cleared, as `both_writes_fail_closed` says); the root then drops the REVOKE
+form; at the next fully authenticated refresh — same process, writes working
+again — `kA` is read back from the state file as Valid, marked Missing and
+published. "Never published again" therefore holds only from the first landed
+record onwards (`tombstone_permanent_partial`). -/
+theorem unrecorded_revocation_returns_in_same_process :
+    1 ∈ (runResult {} [kA, kB] {} (some revokeA) { tombWrite := true, stateWrite := true }).revoked ∧
+    (runHist {} [kA, kB] {} [.run (some revokeA) { tombWrite := true, stateWrite := true } none]).proc = some [] ∧
+    (runHist {} [kA, kB] {} [.run (some revokeA) { tombWrite := true, stateWrite := true } none,
+      .run (some { keys := [kB], signers := [kB] }) {} none]).proc = some [kA, kB] := by
+  decide
+
 /-! ## non-vacuity: each theorem applied to a concrete, non-trivial case -/
 
 -- tombstone_permanent_partial: revocation accepted, restart, configuration still lists kA,
@@ -903,6 +952,11 @@ example : (autoTA {} [kA, kB] {} [kA, kB] (some revokeA) { tombWrite := true, st
 example : Barred (applyWrites {} (autoTA {} [kA, kB] {} [kA, kB] (some revokeA) { tombWrite := true } 0).writes) 1 :=
   (revocation_recorded_or_closed {} [kA, kB] {} [kA, kB] (some revokeA) { tombWrite := true } 0 1 (by decide)).resolve_left
     (by decide)
+
+-- revocation_needs_material_and_selfsig: the revoking run above
+example : ∃ old ∈ (autoTA {} [kA, kB] {} [kA, kB] none {} 0).curFinal,
+    old.key.mat = 1 ∧ isTrusted old.st = true ∧ RevocationOf revokeA old.key :=
+  revocation_needs_material_and_selfsig {} [kA, kB] {} [kA, kB] revokeA {} 0 1 (by decide)
 
 -- corrupt_store_fail_closed
 example : (autoTA {} [kA] { tomb := .corrupt } [kA] (some revokeA) {} 0).live = [] :=
